@@ -18,14 +18,14 @@ Proof. intros H. unfold lastn. rewrite seq_length, skipn_seq. f_equal. lia. Qed.
 Theorem bwd_page n k b : 0 < k -> b <= n ->
   bwd n k (if Nat.ltb b n then Some b else None) =
   Ok {| p_items := seq (b - Nat.min k b) (Nat.min k b); p_hasnext := Nat.ltb b n; p_hasprev := Nat.ltb k b; p_total := n |}.
-Proof. intros Hk Hb. unfold bwd, paginate. cbn [i_after i_before i_first i_last].
+Proof. intros Hk Hb. unfold bwd, paginate. rewrite !ew_no_after. cbn [i_after i_before i_first i_last orb].
   assert (Hz : (Z.of_nat k <? 0)%Z = false) by (apply Z.ltb_ge; lia).
   destruct (Nat.ltb_spec b n) as [Hlt|Hge]; cbn [option_map].
-  - rewrite take_until_seq by lia. rewrite Hz, Nat2Z.id, seq_length, Nat.sub_0_r.
+  - rewrite take_until_seq by lia. rewrite ?orb_false_r. rewrite Hz, Nat2Z.id, seq_length, Nat.sub_0_r.
     destruct (Nat.ltb_spec k b) as [Hkb|Hkb].
     + rewrite lastn_seq by lia. replace (Nat.min k b) with k by lia. cbn. reflexivity.
     + replace (Nat.min k b) with b by lia. now rewrite Nat.sub_diag.
-  - assert (b = n) as -> by lia. rewrite Hz, Nat2Z.id, seq_length.
+  - assert (b = n) as -> by lia. rewrite ?orb_false_r. rewrite Hz, Nat2Z.id, seq_length.
     destruct (Nat.ltb_spec k n) as [Hkn|Hkn].
     + rewrite lastn_seq by lia. replace (Nat.min k n) with k by lia. cbn. reflexivity.
     + replace (Nat.min k n) with n by lia. now rewrite Nat.sub_diag. Qed.
@@ -66,7 +66,7 @@ Proof. intros Hk. replace None with (cursor_at n n) by (unfold cursor_at; now re
 (* negative sizes are rejected, whatever else is asked *)
 Theorem bad_first n i f : i_first i = Some f -> (f < 0)%Z -> paginate n i = ErrFirst.
 Proof. intros H Hf. unfold paginate. rewrite H. apply Z.ltb_lt in Hf. rewrite Hf.
-  destruct (i_after i) as [c|]; [destruct (find_after c (seq 0 n))|]; destruct (i_before i); try destruct (take_until _ _); reflexivity. Qed.
+  destruct (i_after i) as [c|]; [destruct (find_after c (seq 0 n))|]; destruct (empty_window n i); destruct (i_before i); try destruct (take_until _ _); reflexivity. Qed.
 
 (* a cursor that designates no element (foreign, undecodable, or an offset beyond the list) is ignored *)
 Lemma find_after_foreign l : find_after Foreign l = None.
@@ -77,13 +77,16 @@ Proof. induction l as [|x t IH]; cbn; [reflexivity|]. now rewrite IH. Qed.
 Theorem foreign_cursors_ignored n f l :
   paginate n {| i_after := Some Foreign; i_before := Some Foreign; i_first := f; i_last := l |} =
   paginate n {| i_after := None; i_before := None; i_first := f; i_last := l |}.
-Proof. unfold paginate. cbn [i_after i_before i_first i_last]. now rewrite find_after_foreign, take_until_foreign. Qed.
+Proof. unfold paginate. rewrite ew_no_after.
+  assert (E : empty_window n {| i_after := Some Foreign; i_before := Some Foreign; i_first := f; i_last := l |} = false).
+  { unfold empty_window. cbn [i_after i_before]. now rewrite find_after_foreign. }
+  rewrite E. cbn [i_after i_before i_first i_last]. now rewrite find_after_foreign, take_until_foreign. Qed.
 
 (* the total count is the list length on every successful page *)
 Theorem total_is_length n i p : paginate n i = Ok p -> p_total p = n.
 Proof. unfold paginate.
-  destruct (match i_after i with Some c => match find_after c (seq 0 n) with Some o => _ | None => _ end | None => _ end) as [src1 hp].
-  destruct (match i_before i with Some c => take_until c src1 | None => (src1, false) end) as [e1 hn].
+  destruct (match i_after i with Some c => match find_after c (seq 0 n) with Some o => _ | None => _ end | None => _ end) as [src0 hp].
+  destruct (match i_before i with Some c => take_until c _ | None => _ end) as [e1 hn].
   destruct (match i_first i with Some f => _ | None => _ end) as [[e2 hn2]|]; [|discriminate].
   destruct (match i_last i with Some l => _ | None => _ end) as [[e3 hp3]|]; [|discriminate].
   intros H. inversion H. reflexivity. Qed.
